@@ -177,6 +177,14 @@ where
         .index = index;
     }
 
+    /// Forget every entity, keeping the allocated memory.
+    ///
+    /// No identifier resolves after this.
+    pub(crate) fn clear(&mut self) {
+        self.slots.clear();
+        self.free.clear();
+    }
+
     /// Decrease the allocated capacity to the smallest amount required for the stored data.
     ///
     /// This may not decrease to the most optimal value, as the shrinking is dependent on the
